@@ -142,6 +142,10 @@ def r3(ctx):
             for i, e in enumerate(calls):
                 if e.name == CACHE + "::set":
                     rep.check(any(j < i for j in adds), "%s:set-preceded-by-add" % b.name, "inner set preceded by usage += size", "RandomPolicy::%s writes to the inner store without accounting the record first: stored bytes can exceed what the sweep sees" % b.name, b.loc())
+                if e.args and tform(e.args[0]) == F(P("self"), "memory_usage") and e.name.split("::")[-1] in ("store", "swap", "fetch_and", "fetch_min", "fetch_update", "compare_exchange", "fetch_nand", "fetch_or", "fetch_xor"):
+                    # lowering the usage wholesale is only justified when the store was seen empty on this path
+                    saw_empty = any(isinstance(c, tuple) and c[0] == "cmp" and c[1] == "Eq" and truth and any(isinstance(x, tuple) and x[0] == "call" and x[1].split("::")[-1] in ("len",) for x in atoms(c)) for c, truth, _s, _at in p.state.pc) or any(isinstance(c, tuple) and truth and any(isinstance(x, tuple) and x[0] == "call" and x[1].endswith("::is_empty") for x in atoms(c)) for c, truth, _s, _at in p.state.pc)
+                    rep.check(saw_empty, "%s:usage-overwritten" % b.name, "usage reset only after the store was seen empty", "RandomPolicy::%s overwrites the usage counter (%s) without having observed an empty store: after e.g. a *delayed* flush the items are still stored but no longer accounted, and the limit is exceeded" % (b.name, e.name.split("::")[-1]), b.loc())
                 if e.name.endswith("fetch_sub") and tform(e.args[0]) == F(P("self"), "memory_usage"):
                     arg = e.args[1]
                     a = atoms(arg)
